@@ -404,6 +404,10 @@ func C10(c *fw.Ctx) {
 			return
 		}
 		a, b := findOut(p.plain, "json"), findOut(p.macro, "json")
+		if sig, what := onlyOneSerialises(a, b); sig != "" {
+			c.Violate("macro-form-not-serialisable", "the in-place form has a catalog, the macro form is accepted but has none: "+what, rp)
+			return
+		}
 		if a == nil || b == nil || a.Bytes == nil || b.Bytes == nil {
 			return
 		}
